@@ -476,6 +476,32 @@ Theorem cors_router_answers_options_itself :
 Proof. exact cors_answers_options. Qed.
 Print Assumptions cors_router_answers_options_itself.
 
+(* THE ROUTER CLEANS THE PATH FOR THE LOOKUP, THE SIGNATURE COVERS THE PATH AS RECEIVED.
+   [serve_recv cors clean]: the route is looked up under [clean (r_path)] (path.Clean: trailing slash, empty,
+   "." and ".." segments), the route's chain gets the request as received.  For EVERY cleaning function: if
+   the handler of a strict signature group ran (verified method, no X-Request-Uri), the request is signed
+   for the path spelling the client SENT.  So a header signed for /orders/pay does not open /orders/pay/,
+   //orders/pay, /orders/./pay or /orders/x/../pay, although the router maps them onto the same route
+   (Pinned.pinned_router_cleans_then_verifies_refuted is the variant that verifies the cleaned path). *)
+Theorem signature_covers_received_path :
+  forall ulfix key_ok mac rsa_dec cmac sha aes_ok E D b64enc b64dec cors clean limit gs st q st' o,
+  serve_recv ulfix mac rsa_dec cmac sha aes_ok E D b64enc b64dec cors clean limit (fst (bind key_ok gs [])) st q = (st', o) ->
+  o_ran (s_out o) = true ->
+  r_xuri (q_cs q) = None ->
+  exists g, owner (routed clean q) gs = Some g /\
+    forall sc, g_sig g = Some sc -> sg_strict sc = true -> checked (r_method (q_cs q)) = true ->
+      SignedRequest rsa_dec cmac sha (sg_keys sc) (sg_tol sc) (q_now q) (q_cs q) (r_path (q_cs q), r_query (q_cs q)).
+Proof. exact recv_signature_covers_received_path. Qed.
+Print Assumptions signature_covers_received_path.
+
+(* the per-group gate with a cleaning router, over every request sequence, CORS or not *)
+Theorem server_gate_with_cleaning_router :
+  forall ulfix key_ok mac rsa_dec cmac sha aes_ok E D b64enc b64dec cors clean limit gs qs st,
+  Forall2 (GateOkR key_ok mac rsa_dec cmac sha clean gs) qs
+          (serve_all_recv ulfix mac rsa_dec cmac sha aes_ok E D b64enc b64dec cors clean limit (fst (bind key_ok gs [])) st qs).
+Proof. exact serve_all_recv_gate. Qed.
+Print Assumptions server_gate_with_cleaning_router.
+
 (* non-vacuity: two strict signature groups, A with key file 1 under fingerprint 1, B with key
    file 2 under fingerprint 2, and a JWT group.  The same signed request (secret encrypted to
    key 1) runs A's handler; with B's credentials (fingerprint 2, secret to key 2) A answers 403,
